@@ -601,4 +601,8 @@ def run(ctx):
     # parsing back what was formatted succeeds only if the validators accept every board the library hands out:
     # a validator stricter than the property's list (C06 owns the equivalence rule) rejects reachable positions
     c06.check_validators(ctx, f, L, g)
+    # ... and only if the successors made by play / null_move keep the clocks in the range the reader accepts (C02, C14)
+    from . import c02, c14
+    c02.run(ctx)
+    c14.run(ctx)
     ctx.explanation = expl
